@@ -56,7 +56,9 @@ impl ahash::random_state::RandomSource for SimSource {
 }
 
 // ------------------------------------------------------------------ hook seam
-pub const N_SITES: usize = 12;
+pub const N_SITES: usize = 13;
+/// pseudo-site for "before every DashMap operation" (dashmap shim)
+const DASHMAP_SITE: u32 = 12;
 static HOOK_MASK: AtomicU32 = AtomicU32::new(0);
 #[allow(clippy::declare_interior_mutable_const)]
 const Z: AtomicU64 = AtomicU64::new(0);
@@ -75,6 +77,15 @@ fn hook(site: u32) {
     if HOOK_MASK.load(Ordering::Relaxed) & (1 << site) != 0 {
         HOOK_HITS[s].fetch_add(1, Ordering::Relaxed);
         shuttle::thread::yield_now();
+    }
+}
+
+static DM_STATE: AtomicU64 = AtomicU64::new(0);
+/// before every DashMap operation: a switch point at a quarter of them (chosen by a stream
+/// derived from the process seed), when the pseudo-site is enabled for this process
+fn dashmap_hook() {
+    if HOOK_MASK.load(Ordering::Relaxed) & (1 << DASHMAP_SITE) != 0 && splitmix(&DM_STATE) % 4 == 0 {
+        hook(DASHMAP_SITE);
     }
 }
 
@@ -300,7 +311,9 @@ pub fn child_main() -> ! {
     // scheduler + hook seams
     rayon_core::sim::CORES.store(cores.max(1), Ordering::Relaxed);
     HOOK_MASK.store(hooks, Ordering::Relaxed);
+    DM_STATE.store(seed ^ 0xDA54_4A90, Ordering::Relaxed);
     ska::verif_hooks::install_sched_point(hook);
+    dashmap::sim::install(dashmap_hook);
 
     let mut cfg = shuttle::Config::new();
     cfg.stack_size = 1 << 23;
